@@ -45,6 +45,229 @@ pub fn enum_sig(case: &E2Case, outcome: &CaseOutcome) -> Option<String> {
     }
 }
 
+/// Two counterparts: default and dedicated variant-level instructions (type_hint, rename) and payload renames, in
+/// either order — the dedicated one must win for its counterpart, the default one for the other.
+pub struct Dedication;
+
+fn gen_dedication(t: &mut Tape) -> E2Case {
+    use std::fmt::Write;
+    let cps = ["DA", "DB"];
+    let nv = 2 + t.below(3);
+    let mut labels: Vec<String> = vec![format!("variants:{}", nv)];
+    let mut s_attr = String::new();
+    let mut s_plain = String::new();
+    let mut d_defs = [String::new(), String::new()];
+    let mut from_arms = [String::new(), String::new()];
+    let mut into_arms = [String::new(), String::new()];
+    let mut d_vals = [vec![], vec![]];
+    let mut s_vals: Vec<String> = vec![];
+    let mut seed = 100i64;
+    let mut next = || {
+        seed += 17;
+        seed
+    };
+    for vi in 0..nv {
+        let named = vi > 0 && t.chance(2, 3);
+        let nf = if named { 1 + t.below(2) } else { 0 };
+        let fnames: Vec<String> = (0..nf).map(|i| ["a", "b"][i].to_string()).collect();
+        let vname = format!("V{}", vi);
+        // per counterpart: variant name, form (true = tuple), member names
+        let mut dname = [vname.clone(), vname.clone()];
+        let mut tuple_form = [false, false];
+        let mut mnames: [Vec<String>; 2] = [fnames.clone(), fnames.clone()];
+        for c in 0..2 {
+            if vi > 0 && t.chance(1, 3) {
+                dname[c] = format!("W{}{}", vi, ["a", "b"][c]);
+            }
+            if named && t.chance(1, 3) {
+                tuple_form[c] = true;
+            }
+        }
+        let any_tuple = tuple_form[0] || tuple_form[1];
+        if named && !any_tuple {
+            for c in 0..2 {
+                for i in 0..nf {
+                    if t.chance(1, 3) {
+                        mnames[c][i] = format!("{}{}", ["x", "y"][i], ["a", "b"][c]);
+                    }
+                }
+            }
+        } else if named {
+            // renames only for the struct-form counterpart, and then dedicated
+            for c in 0..2 {
+                if !tuple_form[c] {
+                    for i in 0..nf {
+                        if t.chance(1, 3) {
+                            mnames[c][i] = format!("{}{}", ["x", "y"][i], ["a", "b"][c]);
+                        }
+                    }
+                }
+            }
+        }
+        // ---- instructions
+        let mut va: Vec<String> = vec![];
+        let order_default_first = t.chance(2, 3);
+        let mut push_pair = |va: &mut Vec<String>, default: Option<String>, dedicated: Vec<String>| {
+            let mut items: Vec<String> = vec![];
+            if order_default_first {
+                items.extend(default);
+                items.extend(dedicated);
+            } else {
+                items.extend(dedicated);
+                items.extend(default);
+            }
+            va.extend(items);
+        };
+        if named && tuple_form[0] != tuple_form[1] {
+            labels.push("type_hint:default+dedicated".into());
+            // one form is said by the default hint, the other by a dedicated one
+            let dflt = t.below(2);
+            let hint = |tuple: bool| if tuple { "as ()" } else { "as {}" };
+            push_pair(&mut va, Some(format!("#[type_hint({})]", hint(tuple_form[dflt]))), vec![format!("#[type_hint({}| {})]", cps[1 - dflt], hint(tuple_form[1 - dflt]))]);
+        } else if named && tuple_form[0] {
+            va.push("#[type_hint(as ())]".into());
+        }
+        if dname[0] != vname || dname[1] != vname {
+            if dname[0] == dname[1] {
+                va.push(format!("#[map({})]", dname[0]));
+            } else {
+                labels.push("variant-rename:default+dedicated".into());
+                let dflt = t.below(2);
+                let default = if dname[dflt] != vname || t.coin() { Some(format!("#[map({})]", dname[dflt])) } else { None };
+                let other = 1 - dflt;
+                // the other counterpart needs its own instruction whenever a default exists or its name differs
+                let dedicated = if default.is_some() || dname[other] != vname { vec![format!("#[map({}| {})]", cps[other], dname[other])] } else { vec![] };
+                push_pair(&mut va, default, dedicated);
+            }
+        }
+        let mut fa: Vec<String> = vec![String::new(); nf];
+        for i in 0..nf {
+            let (m0, m1) = (mnames[0][i].clone(), mnames[1][i].clone());
+            if m0 == fnames[i] && m1 == fnames[i] {
+                continue;
+            }
+            if any_tuple {
+                for c in 0..2 {
+                    if !tuple_form[c] && mnames[c][i] != fnames[i] {
+                        let _ = write!(fa[i], "#[map({}| {})] ", cps[c], mnames[c][i]);
+                    }
+                }
+            } else if m0 == m1 {
+                let _ = write!(fa[i], "#[map({})] ", m0);
+            } else {
+                labels.push("payload-rename:default+dedicated".into());
+                let dflt = t.below(2);
+                let other = 1 - dflt;
+                let default = format!("#[map({})] ", mnames[dflt][i]);
+                let dedicated = format!("#[map({}| {})] ", cps[other], mnames[other][i]);
+                if t.chance(2, 3) {
+                    let _ = write!(fa[i], "{}{}", default, dedicated);
+                } else {
+                    let _ = write!(fa[i], "{}{}", dedicated, default);
+                }
+            }
+        }
+        // ---- definitions
+        let payload = |names: &[String], tuple: bool, attrs: Option<&Vec<String>>| -> String {
+            if names.is_empty() {
+                String::new()
+            } else if tuple {
+                format!("({})", names.iter().map(|_| "i64,").collect::<Vec<_>>().join(" "))
+            } else {
+                format!(" {{ {} }}", names.iter().enumerate().map(|(i, n)| format!("{}{}: i64,", attrs.map(|a| a[i].clone()).unwrap_or_default(), n)).collect::<Vec<_>>().join(" "))
+            }
+        };
+        let _ = write!(s_attr, "{} {}{}, ", va.join(" "), vname, payload(&fnames, false, Some(&fa)));
+        let _ = write!(s_plain, "{}{}, ", vname, payload(&fnames, false, None));
+        let svals: Vec<i64> = (0..nf).map(|_| next()).collect();
+        let s_lit = if nf == 0 { format!("S::{}", vname) } else { format!("S::{} {{ {} }}", vname, fnames.iter().zip(&svals).map(|(n, v)| format!("{}: {}", n, v)).collect::<Vec<_>>().join(", ")) };
+        s_vals.push(s_lit);
+        for c in 0..2 {
+            let _ = write!(d_defs[c], "{}{}, ", dname[c], payload(&mnames[c], tuple_form[c], None));
+            let pat = |prefix: &str| -> String {
+                if nf == 0 {
+                    format!("{}::{}", cps[c], dname[c])
+                } else if tuple_form[c] {
+                    format!("{}::{}({})", cps[c], dname[c], (0..nf).map(|i| format!("{}{},", prefix, i)).collect::<Vec<_>>().join(" "))
+                } else {
+                    format!("{}::{} {{ {} }}", cps[c], dname[c], (0..nf).map(|i| format!("{}: {}{}", mnames[c][i], prefix, i)).collect::<Vec<_>>().join(", "))
+                }
+            };
+            let s_from = if nf == 0 { format!("S::{}", vname) } else { format!("S::{} {{ {} }}", vname, (0..nf).map(|i| format!("{}: *p{}", fnames[i], i)).collect::<Vec<_>>().join(", ")) };
+            let _ = write!(from_arms[c], "{} => {}, ", pat("p"), s_from);
+            let s_pat = if nf == 0 { format!("S::{}", vname) } else { format!("S::{} {{ {} }}", vname, (0..nf).map(|i| format!("{}: q{}", fnames[i], i)).collect::<Vec<_>>().join(", ")) };
+            let d_lit = |vals: &dyn Fn(usize) -> String| -> String {
+                if nf == 0 {
+                    format!("{}::{}", cps[c], dname[c])
+                } else if tuple_form[c] {
+                    format!("{}::{}({})", cps[c], dname[c], (0..nf).map(|i| format!("{},", vals(i))).collect::<Vec<_>>().join(" "))
+                } else {
+                    format!("{}::{} {{ {} }}", cps[c], dname[c], (0..nf).map(|i| format!("{}: {}", mnames[c][i], vals(i))).collect::<Vec<_>>().join(", "))
+                }
+            };
+            let _ = write!(into_arms[c], "{} => {}, ", s_pat, d_lit(&|i| format!("*q{}", i)));
+            let dv: Vec<i64> = (0..nf).map(|_| next()).collect();
+            d_vals[c].push(d_lit(&|i| format!("{}", dv[i])));
+        }
+    }
+    let names = ["map_owned", "from_owned+owned_into"];
+    let mut type_attrs = String::new();
+    for c in 0..2 {
+        if *t.pick(&names) == "map_owned" {
+            let _ = write!(type_attrs, "#[map_owned({})]\n", cps[c]);
+        } else {
+            let _ = write!(type_attrs, "#[from_owned({})]\n#[owned_into({})]\n", cps[c], cps[c]);
+        }
+    }
+    let derive_input = format!("{}pub enum S {{ {} }}", type_attrs, s_attr);
+    let mut h = String::new();
+    let _ = write!(h, "#[derive(Debug, Clone, PartialEq)] pub enum S {{ {} }}\n", s_plain);
+    for c in 0..2 {
+        let _ = write!(h, "#[derive(Debug, Clone, PartialEq)] pub enum {} {{ {} }}\n", cps[c], d_defs[c]);
+        let _ = write!(h, "pub fn ref_from_{}(v: &{}) -> S {{ match v {{ {} }} }}\npub fn ref_into_{}(v: &S) -> {} {{ match v {{ {} }} }}\n", cps[c], cps[c], from_arms[c], cps[c], cps[c], into_arms[c]);
+        let _ = write!(h, "pub fn vals_{}() -> Vec<{}> {{ vec![{}] }}\n", cps[c], cps[c], d_vals[c].join(", "));
+    }
+    let _ = write!(h, "pub fn s_vals() -> Vec<S> {{ vec![{}] }}\n", s_vals.join(", "));
+    let mut r = String::new();
+    r.push_str("fn chk<T: core::fmt::Debug + PartialEq>(out: &mut Vec<String>, fl: &str, got: &T, want: &T) { if got == want { out.push(format!(\"{} OK\", fl)); } else { out.push(format!(\"{} MISMATCH got={:?} want={:?}\", fl, got, want)); } }\n");
+    r.push_str("pub fn run(out: &mut Vec<String>) {\n");
+    for c in 0..2 {
+        let _ = write!(r, "    for (i, v) in vals_{c}().into_iter().enumerate() {{ let want = ref_from_{c}(&v); let got: S = ::core::convert::From::from(v); chk(out, &format!(\"{c}:from_owned#{{}}\", i), &got, &want); }}\n", c = cps[c]);
+        let _ = write!(r, "    for (i, v) in s_vals().into_iter().enumerate() {{ let want = ref_into_{c}(&v); let got: {c} = ::core::convert::Into::into(v); chk(out, &format!(\"{c}:owned_into#{{}}\", i), &got, &want); }}\n", c = cps[c]);
+    }
+    r.push_str("}\n");
+    let nontrivial = labels.iter().any(|l| l.contains("default+dedicated"));
+    E2Case { harness_src: h, derives: vec![derive_input.clone()], run_src: r, key: derive_input, labels, nontrivial, facts: vec![] }
+}
+
+impl E2Part for Dedication {
+    fn name(&self) -> &'static str {
+        "dedication"
+    }
+    fn prop(&self) -> &'static str {
+        "C02"
+    }
+    fn rule(&self) -> String {
+        "Enum S mapped (map_owned or from_owned + owned_into) to two counterpart enums DA and DB that differ per variant in variant name, in form (struct-form vs tuple-form, said through a default #[type_hint] for one counterpart and a dedicated #[type_hint(DB| ..)] for the other) and in payload member names (default #[map(x)] + dedicated #[map(DB| y)]), the default instruction written before or after the dedicated one. Oracle: reference match functions per counterpart; every variant of each source enum is converted and compared. Non-trivial = some variant carries a default together with a dedicated instruction; distinct by derive-input text.".into()
+    }
+    fn cases(&self, tier: Tier) -> usize {
+        match tier {
+            Tier::Quick => 1_200,
+            Tier::Thorough => 24_000,
+        }
+    }
+    fn mode(&self) -> Mode {
+        Mode::Run
+    }
+    fn gen(&self, tape: &[u16]) -> E2Case {
+        let mut t = Tape::new(tape);
+        gen_dedication(&mut t)
+    }
+    fn sig(&self, case: &E2Case, outcome: &CaseOutcome) -> Option<String> {
+        enum_sig(case, outcome)
+    }
+}
+
 pub fn e2_parts() -> Vec<Box<dyn E2Part>> {
-    vec![Box::new(Enums)]
+    vec![Box::new(Enums), Box::new(Dedication)]
 }
